@@ -45,6 +45,7 @@ class Printer:
     def __init__(self, layout=None):
         self.layout = layout or {}
         self.out = []
+        self.doc = []      # the abstract document: [name, type, [(key, value)]]
         self.rng = random.Random(self.layout.get("seed", 0))
 
     def block(self, name, btype, attrs):
@@ -57,11 +58,13 @@ class Printer:
         eq = " = " if not lay.get("tighteq") else "="
         self.out.append("%s%s%s%s" % (" " * lay.get("nameindent", 0), q(name), eq, btype))
         items = list(attrs)
+        self.doc.append([name, btype, list(attrs)])
         if lay.get("shuffle"):
             self.rng.shuffle(items)
         for k, v in items:
             if isinstance(v, (list, tuple)):
-                vs = [x if isinstance(x, str) else fnum(x, lay) for x in v]
+                # DAY / MONTH are integer lists: always written as integers
+                vs = [x if isinstance(x, str) else (str(int(x)) if k in ("DAY", "MONTH") else fnum(x, lay)) for x in v]
                 if lay.get("multiline") and len(vs) > 2:
                     body = (",\n" + ind * 3).join(vs)
                     if lay.get("closeown"):
@@ -88,7 +91,7 @@ def name_or_bare(s, layout, bare_ok=False):
     return q(s)
 
 
-def print_bdl(p, layout=None):
+def print_bdl(p, layout=None, want_doc=False):
     lay = layout or {}
     P = Printer(lay)
     if lay.get("preamble"):
@@ -194,6 +197,8 @@ def print_bdl(p, layout=None):
         if "long" in t:
             a.append(("LONG-TOTAL", t["long"]))
         P.block(t["name"], "THERMAL-BRIDGE", a)
+    if want_doc:
+        return P.text(), P.doc
     return P.text()
 
 
